@@ -35,6 +35,7 @@ type bsCons struct {
 	start     int
 	committed int
 	delta     int
+	getEither bool // the pending Get may legitimately return its (self-cancelled) context's error instead of the value
 	open      bool
 	// pending get
 	getOp     *vkit.Op
@@ -314,6 +315,14 @@ func (m *bsMachine) getOutcome(c *bsCons, ctxCancelled bool) (complete bool, val
 func (m *bsMachine) finishGet(c *bsCons, wantVal int, wantErr bool) {
 	op := c.getOp
 	c.getOp = nil
+	if c.getEither {
+		// the context was cancelled while the call was under way and a value was there: the value, or the context's
+		// error with nothing consumed, are both what the property allows (the reads that follow tell which it was)
+		c.getEither = false
+		if r, ok := op.Res.(bsGetRes); ok && op.Panic == nil && r.err != nil {
+			wantErr = true
+		}
+	}
 	if c.getCancel != nil {
 		c.getCancel()
 		c.getCancel = nil
@@ -670,8 +679,10 @@ func (m *bsMachine) ruleGet(t *rapid.T) {
 	c.getCancel = cancel
 	c.getCtxErr = kind == "cancelled"
 	if kind == "selfcancel" {
-		if avail, _, _ := m.getOutcome(c, false); !avail {
+		if avail, _, wantErr := m.getOutcome(c, false); !avail {
 			c.getCtxErr = true
+		} else if !wantErr {
+			c.getEither = true
 		}
 	}
 	if done, _, _ := m.getOutcome(c, c.getCtxErr); !done {
